@@ -67,6 +67,34 @@ Section C20.
     ihash h e = ihash h x /\
     (fst e = fst x \/ Forall2 (fun a b => close a b = true) (ivec e) (ivec x)).
   Proof. exact (same_key_close ltb absdiff tol). Qed.
+
+  (* equality, hashing and the duplicate test are functions of the two vectors (and, for the
+     container primitives, of object identity) only.  The model individual has no other field:
+     Individual.id, costs, state, population_id, features ... cannot influence any result above. *)
+  Theorem C20_depends_on_vectors_only : forall (h : list T -> Z) (x y x' y' : indiv),
+    ivec x = ivec x' -> ivec y = ivec y' -> Nat.eqb (fst x) (fst y) = Nat.eqb (fst x') (fst y') ->
+    item_eq ltb absdiff tol x y = item_eq ltb absdiff tol x' y' /\ ihash h x = ihash h x' /\
+    child_repeated ltb absdiff tol x [y] = child_repeated ltb absdiff tol x' [y'].
+  Proof. exact (item_eq_vectors_only ltb absdiff tol). Qed.
+
+  (* GeneticAlgorithm.generate, the whole while loop, for every stream of child pairs and N >= 2:
+     a child of a consumed pair that is not among the returned offspring is equal (all coordinates
+     within the tolerance) to a returned design - no distinct design is discarded; the only other
+     way to be dropped is to be the second child of the last pair when the list is already full *)
+  Theorem C20_generate_discards_only_repeats : forall N pairs r left, 2 <= N ->
+    generate ltb absdiff tol N pairs [] = (r, left) ->
+    forall k c1 c2, nth_error pairs k = Some (c1, c2) -> k < length pairs - left ->
+      (In c1 r \/ exists o, In o r /\ ind_eq (ivec c1) (ivec o) = Some true) /\
+      (In c2 r \/ (exists o, In o r /\ ind_eq (ivec c2) (ivec o) = Some true) \/
+       (S k = length pairs - left /\ length r = N)).
+  Proof. exact (generate_discards_only_repeats ltb absdiff tol). Qed.
+
+  (* ... and no returned offspring is equal to one returned before it - no repeated design is accepted *)
+  Theorem C20_generate_accepts_no_repeat : forall N pairs r left, 2 <= N ->
+    generate ltb absdiff tol N pairs [] = (r, left) ->
+    length r <= N /\
+    forall l1 e l2, r = l1 ++ e :: l2 -> forall o, In o l1 -> ind_eq (ivec e) (ivec o) <> Some true.
+  Proof. exact (generate_accepts_no_repeat ltb absdiff tol). Qed.
 End C20.
 
 Print Assumptions C20_eq_iff_all_close.
@@ -81,6 +109,9 @@ Print Assumptions C20_remove_hits_equal_only.
 Print Assumptions C20_remove_fails_iff_absent.
 Print Assumptions C20_set_dedupe_exact.
 Print Assumptions C20_merged_is_equal.
+Print Assumptions C20_depends_on_vectors_only.
+Print Assumptions C20_generate_discards_only_repeats.
+Print Assumptions C20_generate_accepts_no_repeat.
 
 (* non-vacuity with exact integers (tolerance 2 on a grid of integers): the symmetry premise
    holds, and concrete vectors exercise both verdicts *)
@@ -94,3 +125,11 @@ Example C20_ex_values :
   map fst (dedupe Z.ltb zabsdiff 2%Z (fun v => fold_right Z.add 0%Z v)
              [(0, [1; 2]%Z); (1, [5; 5]%Z); (2, [1; 2]%Z); (3, [2; 1]%Z)]) = [0; 1].
 Proof. vm_compute. repeat split. Qed.
+
+(* generate on a concrete stream, N = 3, tolerance 2: (1,[5;5]) is a repeat of (0,[5;6]) and is
+   discarded, (3,[9;9]) is distinct and kept, the second child of the last pair finds the list full *)
+Example C20_ex_generate :
+  generate Z.ltb zabsdiff 2%Z 3
+    [((0, [5; 6]%Z), (1, [5; 5]%Z)); ((2, [5; 9]%Z), (3, [9; 9]%Z)); ((4, [0; 0]%Z), (5, [1; 1]%Z))] []
+  = ([(0, [5; 6]%Z); (2, [5; 9]%Z); (3, [9; 9]%Z)], 1) /\ 2 <= 3.
+Proof. vm_compute. split; [reflexivity | lia]. Qed.
